@@ -330,3 +330,114 @@ def getset(w, cfg):
     w.ensure('dense image after write = NumPy array after the same write (all other entries untouched)', same(w, image(a), E))
     w.ensure('rep_ok after write', rep_ok(w, a))
     w.canary('canary: write lost', w.eq(image(a).flat[0], E.flat[0] + 1))
+
+
+# --------------------------------------------------------------------------- reflected operators with a scalar on the left, unary operators
+
+def refl_configs(tier):
+    out = []
+    for kind, shape in (('SparseVector', (1,)), ('SparseVector', (3,)), ('SparseArray', (2, 2))):
+        for op in ('radd', 'rsub', 'rmul', 'rtruediv', 'neg', 'abs', 'copy', 'to_array', 'tolist', 'iter', 'bool-of-size-1'):
+            if op == 'bool-of-size-1' and shape != (1,): continue
+            out.append({'name': f'{op} {kind}{list(shape)}', 'kind': kind, 'shape': list(shape), 'op': op})
+    return out
+
+
+@group('C09/reflected_unary', configs=refl_configs,
+       functions=['thermosteam.base.sparse:SparseArray.__radd__/__rsub__/__rmul__/__rtruediv__/__neg__/__abs__/copy/to_array/tolist',
+                  'thermosteam.base.sparse:SparseVector.__rtruediv__/__neg__/__abs__/copy/to_array/tolist/__iter__/__float__/__bool__'])
+def reflected_unary(w, cfg):
+    op = cfg['op']
+    a, A = mk_operand(w, 'a', cfg['kind'], tuple(cfg['shape']), nonzero=(op == 'rtruediv'))
+    A0 = A.copy()
+    c = w.real('c')
+    if op == 'radd': r, expect = c + a, c + A
+    elif op == 'rsub': r, expect = c - a, c - A
+    elif op == 'rmul': r, expect = c * a, c * A
+    elif op == 'rtruediv': r, expect = c / a, c / A
+    elif op == 'neg': r, expect = -a, -A
+    elif op == 'abs': r, expect = abs(a), np.array([abs(x) for x in A.flat], dtype=A.dtype).reshape(A.shape)
+    elif op == 'copy': r, expect = a.copy(), A
+    elif op == 'to_array': r, expect = a.to_array(), A
+    elif op == 'tolist': r, expect = np.array(a.tolist(), dtype=A.dtype), A
+    elif op == 'iter':
+        r = np.array([image(x) if isinstance(x, SparseVector) else x for x in a], dtype=A.dtype); expect = A
+    elif op == 'float-of-size-1':
+        r, expect = np.array([float(a) if not w.symbolic else sp.__dict__['float'](a)], dtype=A.dtype), A
+        if w.symbolic: r = np.array([image(a)[0]], dtype=object)
+    elif op == 'bool-of-size-1':
+        got = bool(a); want = bool(A.flat[0])
+        w.ensure('bool(a) = bool of the single element', got == want)
+        w.canary('canary: inverted truth value', got != want)
+        return
+    got = image(r) if isinstance(r, (SparseVector, SparseArray)) else np.asarray(r)
+    w.ensure('dense image = NumPy result', same(w, got, expect))
+    if isinstance(r, (SparseVector, SparseArray)):
+        w.ensure('rep_ok(result)', rep_ok(w, r))
+        if op in ('neg', 'abs', 'copy', 'radd', 'rsub', 'rmul', 'rtruediv'):
+            rows_r = r.rows if isinstance(r, SparseArray) else [r]
+            rows_a = a.rows if isinstance(a, SparseArray) else [a]
+            w.ensure('result shares no storage with the operand', all(x is not y and x.dct is not y.dct for x in rows_r for y in rows_a))
+    w.ensure('operand unchanged', same(w, image(a), A0))
+    w.canary('canary: result + 1', w.eq(np.asarray(got, dtype=object).flat[0], np.asarray(expect, dtype=object).flat[0] + 1))
+
+
+# --------------------------------------------------------------------------- logical vectors / arrays: & | ^ ~ and comparisons with booleans
+
+def logical_configs(tier):
+    out = []
+    pats = {2: [(False, False), (True, False), (True, True)], 3: [(True, False, True), (False, False, False)]}
+    for n in (2, 3):
+        for pa in pats[n]:
+            for other in ('scalar-True', 'scalar-False', 'vector', 'length-1', 'bool-ndarray', 'bool-list', '2-d'):
+                for op in ('and', 'or', 'xor', 'iand', 'ior', 'ixor', 'invert', 'eq', 'ne', 'any', 'all', 'sum'):
+                    if op in ('invert', 'any', 'all', 'sum') and other != 'scalar-True': continue
+                    if tier == 'quick' and n == 3 and other in ('2-d', 'bool-list'): continue
+                    out.append({'name': f'{list(pa)} {op} {other}', 'pa': list(pa), 'other': other, 'op': op})
+    return out
+
+
+LOPS = {'and': operator.and_, 'or': operator.or_, 'xor': operator.xor, 'iand': operator.iand, 'ior': operator.ior, 'ixor': operator.ixor,
+        'eq': operator.eq, 'ne': operator.ne}
+
+
+@group('C09/logical', configs=logical_configs, mode='B',
+       notes='boolean data has no real-valued leaves: exhaustive enumeration of the listed boolean patterns (sizes 2-3) x operand kinds x operators, NumPy as oracle',
+       functions=['thermosteam.base.sparse:SparseLogicalVector.__and__/__or__/__xor__/__iand__/__ior__/__ixor__/__invert__/__eq__/__ne__/any/all/sum',
+                  'thermosteam.base.sparse:SparseArray (bool rows) logical operators'])
+def logical(w, cfg):
+    A = np.array(cfg['pa'], dtype=bool)
+    n = len(A)
+    a = sparse_fn(A.tolist())
+    w.ensure('constructor gives a logical vector with the same dense image', isinstance(a, SparseLogicalVector) and np.array_equal(a.to_array(), A))
+    op, other = cfg['op'], cfg['other']
+    if op == 'invert':
+        r = ~a
+        w.ensure('~a = NumPy', np.array_equal(r.to_array(), ~A) and all(0 <= k < r.size for k in r.set)); return
+    if op in ('any', 'all', 'sum'):
+        w.ensure(f'{op}() = NumPy', getattr(a, op)() == getattr(A, op)()); return
+    B = {'scalar-True': True, 'scalar-False': False, 'vector': np.array(([True, False, True] * 2)[:n]), 'length-1': np.array([True]),
+         'bool-ndarray': np.array(([False, True, True] * 2)[:n]), 'bool-list': np.array(([True, True, False] * 2)[:n]),
+         '2-d': np.array([([True, False, False] * 2)[:n], ([False, True, False] * 2)[:n]])}[other]
+    b = {'scalar-True': True, 'scalar-False': False, 'vector': sparse_fn(B.tolist()) if other == 'vector' else None,
+         'length-1': sparse_fn([True]), 'bool-ndarray': B.copy() if hasattr(B, 'copy') else B, 'bool-list': B.tolist() if hasattr(B, 'tolist') else B,
+         '2-d': B.copy() if hasattr(B, 'copy') else B}[other]
+    np_exc = sp_exc = None
+    try:
+        E = A.copy()
+        expect = LOPS[op](E, B)
+    except EXC as e: np_exc = e
+    try:
+        r = LOPS[op](a, b)
+    except EXC as e: sp_exc = e
+    if np_exc is not None:
+        w.ensure('NumPy rejects => sparse rejects', sp_exc is not None); return
+    w.ensure('NumPy accepts => sparse accepts', sp_exc is None, exc=str(sp_exc))
+    if sp_exc is not None: return
+    got = r.to_array() if hasattr(r, 'to_array') else np.asarray(r)
+    w.ensure('dense image = NumPy result', got.shape == np.shape(expect) and np.array_equal(got.astype(bool), np.asarray(expect).astype(bool)),
+             got=str(got.tolist()), numpy=str(np.asarray(expect).tolist()))
+    if op.startswith('i'):
+        w.ensure('in-place returns the target', r is a)
+    else:
+        w.ensure('operand unchanged', np.array_equal(a.to_array(), A))
